@@ -308,7 +308,7 @@ class RedlineEngine:
                 if s_name:
                     self._set_paragraph_style(new_p, s_name)
                 elif current_p.pPr is not None:
-                    new_p.append(deepcopy(current_p.pPr))
+                    new_p.append(self._inherited_pPr(current_p))
 
                 new_ins = self._create_track_change_tag("w:ins")
 
@@ -379,7 +379,7 @@ class RedlineEngine:
                 if style_name:
                     self._set_paragraph_style(new_p, style_name)
                 elif current_p_element.pPr is not None:
-                    new_p.append(deepcopy(current_p_element.pPr))
+                    new_p.append(self._inherited_pPr(current_p_element))
 
                 new_ins = self._create_track_change_tag("w:ins")
 
@@ -447,6 +447,16 @@ class RedlineEngine:
         elif suppress_inherited:
             if i_tag is not None:
                 i_tag.set(qn("w:val"), "0")
+
+    def _inherited_pPr(self, source_p):
+        """
+        Paragraph properties for a paragraph inserted after source_p: a copy of source_p's, without the section break
+        a section-ending paragraph carries (copying it would start a new section at every inserted paragraph).
+        """
+        pPr = deepcopy(source_p.pPr)
+        for sect in pPr.findall(qn("w:sectPr")):
+            pPr.remove(sect)
+        return pPr
 
     def _set_paragraph_style(self, p_element, style_name: str):
         existing_pPr = p_element.find(qn("w:pPr"))
